@@ -206,6 +206,11 @@ const CONTEXTS: &[(&str, &str, &str)] = &[
     ("if", "%if ", " %then;"),
     ("do-to", "%do i=1 %to ", ";"),
     ("assign", "x=", ";"),
+    // end of input inside the expression with an inner parenthesis still open: the operand is
+    // the last real token and is followed by the recovery tokens of the unwinding only
+    ("eval-open", "%eval((", ""),
+    ("sysevalf-open", "%sysevalf((", ""),
+    ("if-open", "%if (", ""),
 ];
 
 fn context_of(src: &str) -> Option<(&'static str, usize, usize)> {
@@ -234,7 +239,7 @@ pub fn check(src: &str) -> Option<Vec<String>> {
     }
     let (ctx, plen, slen) = context_of(src).unwrap_or(("open", 0, 0));
     let open = matches!(ctx, "open" | "assign");
-    let float_mode = matches!(ctx, "sysevalf" | "sysfunc");
+    let float_mode = matches!(ctx, "sysevalf" | "sysfunc" | "sysevalf-open");
     let body_end = src.len() - slen;
     let mut missed = 0u32;
     for (i, t) in v.toks.iter().enumerate() {
